@@ -711,6 +711,7 @@ def build_text(lines, parity, df, bases=None):
 
 
 class SccHarness(Harness):
+  quick_only_for = ("C18",)   # the deep tier runs under the harness's own property; the C18 roll-up reuses the quick partitions
   properties = ("C08", "C18")
   functions = ("scc.reader:to_model", "scc.line:SccLine.from_str", "scc.line:SccLine.process", "scc.word:SccWord.from_str",
                "scc.context:SccContext.*", "scc.caption_paragraph:SccCaptionParagraph.*", "scc.caption_line:SccCaptionLine.*",
